@@ -315,10 +315,7 @@ void twin(const char* sig, F opf, G ctorf) {
   vf::stat("twins_checked");
 }
 
-// ------------------------------------------------------------------ mode 5: inverse pairs
-// a' = g(f(a, b), b) must return a. The formulas are unknown to the harness: the accepted error is
-// the largest change of g's result when any component of c = f(a,b) or of b is moved by +-1, +-2,
-// +-4 ulps (one at a time), floored at 4 ulps of |a|_inf (DESIGN R3).
+// one component of x moved by d units in the last place
 template <class X>
 X nudged(const X& x, int comp, int d) {
   numof<X> c[9];
@@ -326,6 +323,83 @@ X nudged(const X& x, int comp, int d) {
   c[comp] = vf::step(c[comp], d);
   return rebuild<X>(c);
 }
+
+// ------------------------------------------------------------------ mode 6: member functions vs their constructor twins
+// c.Name(a, b) and Name(c, a, b) (in the constructor's argument order) are two spellings of one named definition: they must give
+// the same quantity. Accepted difference: the largest change of the constructor's result when any one input component moves by
+// +-1, +-2, +-4 ulp, floored at 4 ulp of the result (on this tree the members forward to the constructors: 0 observed).
+template <class F, class G, class... X, size_t... I>
+void member_twin_impl(const char* sig, F member, G ctor, std::index_sequence<I...>) {
+  using R = std::decay_t<std::invoke_result_t<F, const X&...>>;
+  if constexpr (!checkable<R>) {
+    return;
+  } else {
+    using T = numof<R>;
+    constexpr int nr = vf::count_of<R>();
+    const int nv = thorough ? 6 : 4;
+    double worst = 0;
+    for (int v = 0; v < nv; v++) {
+      std::tuple<X...> args{operand<X>((int)I, v)...};
+      const R m = member(std::get<I>(args)...);
+      const R c = ctor(std::get<I>(args)...);
+      if (!finite(c)) {
+        vf::stat("skipped_nonfinite");
+        continue;
+      }
+      T x[9], y[9];
+      vf::comps(m, x);
+      vf::comps(c, y);
+      f128 cmax = 0, tol[9];
+      for (int i = 0; i < nr; i++) cmax = fmaxq(cmax, fabsq((f128)y[i]));
+      for (int i = 0; i < nr; i++) tol[i] = 4 * vf::ulp_at<T>(cmax);
+      auto absorb = [&](const R& alt) {
+        if (!finite(alt)) return;
+        T z[9];
+        vf::comps(alt, z);
+        for (int i = 0; i < nr; i++) tol[i] = fmaxq(tol[i], fabsq((f128)z[i] - (f128)y[i]));
+      };
+      // nudge one component of one argument at a time
+      auto nudge_arg = [&](auto index) {
+        constexpr size_t J = decltype(index)::value;
+        using XJ = std::tuple_element_t<J, std::tuple<X...>>;
+        if constexpr (!vf::is_direction<XJ>) {
+          for (int k = 0; k < vf::count_of<XJ>(); k++)
+            for (int d : {-4, -2, -1, 1, 2, 4}) {
+              std::tuple<X...> alt = args;
+              std::get<J>(alt) = nudged(std::get<J>(args), k, d);
+              absorb(ctor(std::get<I>(alt)...));
+            }
+        }
+      };
+      (nudge_arg(std::integral_constant<size_t, I>{}), ...);
+      vf::stat("member_twin_evaluations");
+      for (int i = 0; i < nr; i++) {
+        const double r = (double)(fabsq((f128)x[i] - (f128)y[i]) / tol[i]);
+        if (r > worst) worst = r;
+        if (!(r <= 1.0)) {
+          vf::viol(std::string("member-twin|") + sig + "|" + vf::TName<T>::value, std::string("{\"pair\":") + vf::jstr(sig) + ",\"operands\":" + show_all(std::get<I>(args)...) + ",\"member_result\":" + show(m) +
+                                                                                      ",\"constructor_result\":" + show(c) + ",\"difference_over_tolerance\":" + std::to_string(r) + "}");
+          return;
+        }
+      }
+    }
+    vf::maxf(std::string("max_member_twin_difference_over_tolerance_") + vf::TName<T>::value, worst);
+    vf::stat("member_twins_checked");
+  }
+}
+template <class... X, class F, class G>
+void member_twin(const char* sig, F member, G ctor) {
+  if constexpr (std::is_invocable_v<F, const X&...> && std::is_invocable_v<G, const X&...>) {
+    member_twin_impl<F, G, X...>(sig, member, ctor, std::index_sequence_for<X...>{});
+  } else {
+    vf::stat("candidates_not_callable");
+  }
+}
+
+// ------------------------------------------------------------------ mode 5: inverse pairs
+// a' = g(f(a, b), b) must return a. The formulas are unknown to the harness: the accepted error is
+// the largest change of g's result when any component of c = f(a,b) or of b is moved by +-1, +-2,
+// +-4 ulps (one at a time), floored at 4 ulps of |a|_inf (DESIGN R3).
 template <class A, class B, class F, class G>
 void inverse2(const char* sig, F f, G g) {
   using C = std::decay_t<std::invoke_result_t<F, const A&, const B&>>;
